@@ -518,6 +518,8 @@ def eq_term(I, a, b):
             else:
                 acc = e if acc is True else z3.And(acc, e)
         return acc
+    if isinstance(a, EnumMember) or isinstance(b, EnumMember):
+        return a is b           # a plain Enum member equals only itself
     r = libdt.eq(I, a, b)
     if r is not NOTFOUND:
         return r
@@ -952,7 +954,14 @@ def slice_(I, o, s):
                 r = r2[0]
         if r is not SP.NOTFOUND:
             return r
+        if isinstance(hi, int) and hi >= 0 and (lo is None or (isinstance(lo, int) and lo >= 0)):
+            r = SP.slice_fixed(o, lo or 0, hi)
+            if r is not SP.NOTFOUND:
+                return r
         if hi is None and isinstance(lo, int) and lo >= 0:
+            r = SP.drop_fixed(o, lo)
+            if r is not SP.NOTFOUND:
+                return r
             r = SP.drop_prefix(o, lo)
         elif lo is None and isinstance(hi, int) and hi < 0:
             r = SP.drop_suffix_to(o, -hi)
